@@ -12,7 +12,6 @@ RULE = ("1-4 map files of one kind (float / integer dtypes, record arrays, wide 
         "must be raised exactly when the model raises; non-trivial = >= 2 inputs with different coverage orders")
 ASSUMPTIONS = ["in_memory=True only (in_memory=False needs fitsio, which is not installed)",
                "boolean and bit-packed inputs are outside the property (plain, record, wide mask)",
-               "known finding F43: no unsigned record fields",
                "known finding F50: wide-mask inputs are not concatenated to an output coverage coarser than the first "
                "file's coverage"]
 
@@ -24,7 +23,7 @@ def histories(rng, tier):
         kind = rng.choice(['int', 'int', 'flt', 'rec', 'wide'])
         spord = rng.choice([1, 2, 2, 3])
         nfiles = rng.choice([1, 2, 2, 3, 4])
-        base = gen.rand_cfg(rng, kinds=[kind], max_npix=100000, name='b', rec_unsigned=False)
+        base = gen.rand_cfg(rng, kinds=[kind], max_npix=100000, name='b')
         cfgs = []
         for i in range(nfiles):
             covord = rng.randint(0, min(spord, 2))
